@@ -446,12 +446,17 @@ impl MerkleTree {
         }
 
         if instructions.is_empty() {
+            // The request comes from a peer: when it selects nothing that can be proven
+            // (e.g. an index outside of the requested upgrade), answer with an error.
+            let missing_nodes = |what: &str| HypercoreError::InvalidOperation {
+                context: format!("Invalid request, could not collect {what} nodes"),
+            };
             let (data_block, data_hash): (Option<DataHash>, Option<DataHash>) =
                 if let Some(block) = block.as_ref() {
                     (
                         Some(DataHash {
                             index: block.index,
-                            nodes: p.nodes.expect("nodes need to be present"),
+                            nodes: p.nodes.ok_or_else(|| missing_nodes("block"))?,
                         }),
                         None,
                     )
@@ -460,7 +465,7 @@ impl MerkleTree {
                         None,
                         Some(DataHash {
                             index: hash.index,
-                            nodes: p.nodes.expect("nodes need to be set"),
+                            nodes: p.nodes.ok_or_else(|| missing_nodes("hash"))?,
                         }),
                     )
                 } else {
@@ -480,10 +485,12 @@ impl MerkleTree {
                 Some(DataUpgrade {
                     start: upgrade.start,
                     length: upgrade.length,
-                    nodes: p.upgrade.expect("nodes need to be set"),
+                    nodes: p.upgrade.ok_or_else(|| missing_nodes("upgrade"))?,
                     additional_nodes: p.additional_upgrade.unwrap_or_default(),
                     signature: signature
-                        .expect("signature needs to be set")
+                        .ok_or_else(|| HypercoreError::InvalidOperation {
+                            context: "Invalid request, no signature to upgrade with".to_string(),
+                        })?
                         .to_bytes()
                         .to_vec(),
                 })
